@@ -31,7 +31,7 @@ RULE = ("operation sequences on one object; kind est: ops from {extract/2, extra
         "(normalised log-weights, unique maximum), zeros (exact zero weights = -inf, also all previous weights -inf), ties (exact ties "
         "in weights / map scores), unnormalised (outside the premise: correspondence and the un-normalised clauses), cancel (pairs of "
         "opposite phasors, relative resultant down to 1e-7, tolerances scaled by 1/resultant, skipped and counted above 1e-3), single "
-        "(one stored estimate at 7.0 / -9.5 rad); likelihoods / transition matrices with zeros; kind hb: ops from {add, set(w), dec, "
+        "(one particle / one stored estimate at 7.0 / -9.5 rad: principal value expected); likelihoods / transition matrices with zeros; kind hb: ops from {add, set(w), dec, "
         "inc, clear, move-construct, move-assign}; "
         "both tiers start with a hand-picked corpus (inputs of past failures, saturation, unsigned wrap, shared history) and end "
         "with exact-tie cases for plain mode/map (compared by index: first maximiser); "
@@ -88,7 +88,8 @@ def wmean(P, w, lin, circ):
         out[:lin] = P[:lin] @ w
     for r in range(lin, d):
         if P.shape[1] == 1:
-            out[r] = P[r, 0]; res.append(math.inf)
+            # directional_mean, one column: the principal value of the angle (/repo dee9c81)
+            out[r] = math.atan2(math.sin(P[r, 0]), math.cos(P[r, 0])); res.append(math.inf)
         else:
             s, c = float(w @ np.sin(P[r])), float(w @ np.cos(P[r]))
             tot = float(np.sum(np.abs(w)))
@@ -370,13 +371,19 @@ def corpus(rng, add, cid0):
         (1, 1, ["m:wmean", "e2", "e2", "mv", "e2", "w:3", "ma", "e5", "m:smap", "mv", "e5", "c", "ma", "e5"]),  # moves
         (5, 4, ["m:emean", "e5", "e5", "m:wmode", "e5", "w:2", "e5"]),        # more rows than 3 + 2
     ]
+    # switching the window family with a FULL buffer and no resize / clear: each family must use ITS OWN weights
+    # (sm_weights_, wm_weights_, em_weights_ are three caches; one cache keyed by the length alone would be stale)
+    for src, dst in (("wmean", "smean"), ("emode", "smode"), ("emean", "wmean"), ("smean", "emean"), ("wmap", "smap"), ("smode", "wmap"), ("emap", "wmode")):
+        for wtok in ([], ["w:2"], ["w:3"]):
+            full = int(wtok[0][2:]) if wtok else 5
+            est.append((2, 1, wtok + ["m:" + src] + ["e5"] * (full + 1) + ["m:" + dst, "e5", "e5", "m:" + src, "e5"]))
     for lin, circ, toks in est:
         add(est_case(rng, k, lin, circ, toks, "corpus", "plain")); k += 1
     # exactly ONE stored estimate whose angle lies outside (-pi, pi]: a single particle at 7.0 / -9.5 rad
     for meth in ("smean", "wmode", "emap"):
-        c = caseio.Case(k, "est", {"lin": 1, "circ": 2, "tag": "corpus", "nops": 5, "flavour": "single"})
-        c.word("ops", ["m:" + meth, "e5", "c", "e5", "e5"])
-        for j, n in ((1, 1), (3, 1), (4, 2)):
+        c = caseio.Case(k, "est", {"lin": 1, "circ": 2, "tag": "corpus", "nops": 7, "flavour": "single"})
+        c.word("ops", ["m:" + meth, "e5", "c", "e5", "e5", "m:mean", "e2"])
+        for j, n in ((1, 1), (3, 1), (4, 2), (6, 1)):
             P = np.array([[1.5] * n, [7.0] * n, [-9.5] * n]) + (np.arange(n) * 0.01)
             c.mat_shape("P%d" % j, 3, n, P); c.mat_shape("W%d" % j, n, 1, np.log(np.full(n, 1.0 / n)))
             c.mat_shape("PW%d" % j, n, 1, np.log(np.full(n, 1.0 / n))); c.mat_shape("L%d" % j, n, 1, np.arange(1, n + 1))
@@ -583,9 +590,16 @@ def _cmp_vec(nm, a, b, lin, tol, diffs):
         if ctol > 1e-3:
             CORR_SKIPPED += 1       # directional mean of nearly cancelling phasors: no meaningful comparison
             return
-        dc = float(np.max(np.abs(circ_diff(a[lin:], b[lin:])))) if np.all(np.isfinite(a[lin:])) and np.all(np.isfinite(b[lin:])) else (0.0 if np.array_equal(a[lin:], b[lin:], equal_nan=True) else math.inf)
+        if np.all(np.isfinite(a[lin:])) and np.all(np.isfinite(b[lin:])):
+            # the representative is specified ((-pi, pi]): compare the values themselves; modulo 2 pi only where both
+            # sides sit at the +-pi seam, where rounding may pick either end
+            seam = (np.abs(a[lin:]) > math.pi - max(ctol, 1e-9)) & (np.abs(b[lin:]) > math.pi - max(ctol, 1e-9))
+            dd = np.where(seam, np.abs(circ_diff(a[lin:], b[lin:])), np.abs(a[lin:] - b[lin:]))
+            dc = float(np.max(dd))
+        else:
+            dc = 0.0 if np.array_equal(a[lin:], b[lin:], equal_nan=True) else math.inf
         if not (dc <= ctol):
-            diffs.append("%s: circular rows differ by %.3g (mod 2pi, tol %.3g)" % (nm, dc, ctol))
+            diffs.append("%s: circular rows differ by %.3g (tol %.3g)" % (nm, dc, ctol))
 
 
 def compare(c, impl, model):
@@ -601,7 +615,8 @@ def compare(c, impl, model):
     for k, o in enumerate(toks):
         names = ["hist%d" % k]
         if est_kind:
-            names += ["smw%d" % k, "wmw%d" % k, "emw%d" % k]
+            if impl.get("caches_reachable", 1) == 1:
+                names += ["smw%d" % k, "wmw%d" % k, "emw%d" % k]
             if o in ("e2", "e5"):
                 names.append("est%d" % k)
         for nm in names:
@@ -710,7 +725,7 @@ def oracle(c, impl, model):
             same = ret == 1 and nwin == win and np.array_equal(nhist, hist)
             if est_kind:
                 same = same and impl.get("meth%d" % k) == METHODS.index(meth)
-                for nmc in ("smw", "wmw", "emw"):
+                for nmc in (("smw", "wmw", "emw") if impl.get("caches_reachable", 1) == 1 else ()):
                     cur = np.asarray(impl.get("%s%d" % (nmc, k)), float).reshape(-1)
                     same = same and np.array_equal(cur, caches[nmc])
             if not same:
@@ -774,12 +789,12 @@ def oracle(c, impl, model):
                                 if len(idx) == 1 and idx[0] != first and coded[idx[0]] == coded[first]:
                                     bad("%s:not-first-maximiser" % st, "particles %d and %d tie at %.17g: particle %d returned, the first maximiser is %d" % (first, idx[0], float(coded[first]), idx[0], first), k)
                     base = target
-                # ---- circular rows live on the circle: (-pi, pi] from two columns on; one column is returned as it is
+                # ---- circular rows live on the circle: always in (-pi, pi]; one column gives its principal value
                 if circ and var is None and st == "mean":
-                    if P.shape[1] >= 2 and not np.all((est[lin:] > -math.pi - 1e-15) & (est[lin:] <= math.pi + 1e-15)):
-                        bad("circular-out-of-range:mean", "circular mean of %d particles outside (-pi, pi]: %s" % (P.shape[1], est[lin:]), k)
-                    if P.shape[1] == 1 and not np.array_equal(est[lin:], P[lin:, 0]):
-                        bad("single-column-not-as-is:mean", "one particle: %s returned for %s" % (est[lin:], P[lin:, 0]), k)
+                    if not np.all((est[lin:] > -math.pi - 1e-15) & (est[lin:] <= math.pi + 1e-15)):
+                        bad("circular-out-of-range:mean", "circular mean of %d particle(s) outside (-pi, pi]: %s" % (P.shape[1], est[lin:]), k)
+                    elif P.shape[1] == 1 and not np.all(np.abs(est[lin:] - np.arctan2(np.sin(P[lin:, 0]), np.cos(P[lin:, 0]))) <= 1e-12):
+                        bad("single-column-not-principal-value:mean", "one particle: %s returned for %s" % (est[lin:], P[lin:, 0]), k)
                 if var is None:
                     if nwin != win or not np.array_equal(nhist, hist):
                         bad("plain-extract:frame", "a non-windowed extract changed the history or the window", k)
@@ -792,14 +807,15 @@ def oracle(c, impl, model):
                         n = exp_cols
                         nm = {"s": "simple", "w": "weighted", "e": "exponential"}[var]
                         phase = "filling" if n < win else "full"
-                        cw = np.asarray(impl.get({"s": "smw", "w": "wmw", "e": "emw"}[var] + str(k)), float).reshape(-1)
+                        reach = impl.get("caches_reachable", 1) == 1
+                        cw = np.asarray(impl.get({"s": "smw", "w": "wmw", "e": "emw"}[var] + str(k)), float).reshape(-1) if reach else np.log(win_weights(var, n))
                         ww = np.exp(cw)
                         # ---- the weights in use (the cached vector of this variant): one per stored estimate,
                         #      positive, summing to one, not increasing with age, equal for the simple variant
                         wok = True
                         if cw.size != n:
-                            wok = False
                             bad("stale-window-weights:%s:%s" % (var, phase), "%d cached %s weights for %d stored estimates (window %d)" % (cw.size, nm, n, win), k)
+                            ww = win_weights(var, n)      # go on with the closed form: is the estimate itself still right?
                         else:
                             if not np.all(ww > 0) or not np.all(np.isfinite(cw)):
                                 wok = False; bad("window-weights-not-positive:%s" % var, "weights %s" % ww, k)
@@ -809,10 +825,10 @@ def oracle(c, impl, model):
                                 wok = False; bad("window-weights-increase-with-age:%s" % var, "weights %s (newest first)" % ww, k)
                             if var == "s" and not caseio.close(ww, np.full(n, 1.0 / n), 1e-14, 0):
                                 wok = False; bad("window-weights-not-equal:s", "simple weights %s" % ww, k)
-                        if circ and n >= 2 and not np.all((est[lin:] > -math.pi - 1e-15) & (est[lin:] <= math.pi + 1e-15)):
+                        if circ and not np.all((est[lin:] > -math.pi - 1e-15) & (est[lin:] <= math.pi + 1e-15)):
                             bad("circular-out-of-range:windowed", "%d stored: circular output outside (-pi, pi]: %s" % (n, est[lin:]), k)
-                        if circ and n == 1 and not np.array_equal(est[lin:], nhist[lin:, 0]):
-                            bad("single-column-not-as-is:windowed", "one stored estimate: %s returned for %s" % (est[lin:], nhist[lin:, 0]), k)
+                        elif circ and n == 1 and not np.all(np.abs(est[lin:] - np.arctan2(np.sin(nhist[lin:, 0]), np.cos(nhist[lin:, 0]))) <= 1e-12):
+                            bad("single-column-not-principal-value:windowed", "one stored estimate: %s returned for %s" % (est[lin:], nhist[lin:, 0]), k)
                         # ---- the estimate is that convex combination of the stored estimates
                         if wok:
                             spec, sres = wmean(nhist, ww, lin, circ)
@@ -878,8 +894,9 @@ LEVEL_TEXT = ("Proof: HistoryBuffer is modelled as a list state machine and Esti
               "an argmax of the coded log-score (= log of likelihood x weight-averaged transition density up to the epsilon terms), and every windowed "
               "estimate is the convex combination with positive, age-non-increasing weights summing to one (equal for the simple variant). "
               "The model is tied to the code by running the extracted model and the real objects on the same operation sequences.")
-LEVEL_NOTE = ("Circular outputs are in (-pi, pi] except when exactly one particle / one stored estimate is averaged: directional_mean then returns "
-              "the angle as it is (congruent mod 2 pi, C17_mean_circular_on_circle / C17_windowed_circular_on_circle). Zero weights (-inf) and "
+LEVEL_NOTE = ("Every circular output is in (-pi, pi], also when exactly one particle / one stored estimate is averaged (principal value of "
+              "that angle since /repo dee9c81; C17_mean_circular_on_circle / C17_windowed_circular_on_circle; the old as-is statement is in "
+              "C17_Regress.v). Zero weights (-inf) and "
               "un-normalised weights are covered by correspondence and oracle only; the moved-from object of a move is out of scope. "
               "Trusted: Coq kernel + the 4 axioms of Reals for the real-valued statements, extraction + float driver, harness, numpy oracle, tolerances; "
               "rounding not modelled; tie to the code sampled. 'most recent min(calls, window) calls' holds as stated only while the window is not changed; "
